@@ -478,7 +478,10 @@ class RVData:
 
     def __copy__(self):
         return self.__class__(
-            t=self.t.copy(), rv=self.rv.copy(), rv_err=self.rv_err.copy()
+            t=self.t.copy(),
+            rv=self.rv.copy(),
+            rv_err=self.rv_err.copy(),
+            t_ref=self.t_ref if self.t_ref is not None else False,
         )
 
     def copy(self):
